@@ -53,6 +53,7 @@ func (c *Check) registryLocked(rule string) {
 func checkC20(c *Check) {
 	p := c.P
 	c.registryLocked("C20.1 one-mutex")
+	c.peerConfigVerbatim("C20.1 registry-key-consistent")
 	isExists := func(e *Expr) bool {
 		return e.Op == "ex" && len(e.Args) == 2 && e.Args[0].Op == "val" && isBoolType(e.Typ)
 	}
@@ -409,4 +410,44 @@ func (c *Check) serveShutdown(rule string) {
 	}
 	c.require(okD, rule, "Server.Serve", "deferred shutdown atomic", p.Pos(fn.Pos()),
 		"the deferred shutdown stops every peer (synchronously), clears serving and closes doneServingCh inside one critical section, so no AddPeer can start a peer that is never stopped")
+}
+
+// peerConfigVerbatim: the registry is keyed by the configured remote address
+// at three places (AddPeer's duplicate test on its argument, its insertion on
+// the stored copy, the lookups of DeletePeer/GetPeer/handleInboundConn). They
+// agree only if a peer carries exactly the configuration it was added with:
+// newPeer stores its config argument unmodified, nothing writes peer.config
+// afterwards, and every key of the registry is `<address>.String()`.
+func (c *Check) peerConfigVerbatim(rule string) {
+	p := c.P
+	np := p.Fn("newPeer")
+	if np == nil {
+		return
+	}
+	a := NewAnalysis(p, np)
+	a.Run()
+	cfg := paramExpr(np, 0)
+	n := 0
+	for _, r := range a.Returns {
+		n++
+		res := r.Results[0]
+		v := p.loadField(r.State, res, "peer", "config")
+		ok := v != nil && v.Key == cfg.Key
+		got := "<nil>"
+		if v != nil {
+			got = trunc(v.Key, 80)
+		}
+		c.require(ok, rule, "newPeer", "peer.config is the argument", p.InstrPos(r.Instr), "the stored configuration is the config argument, unmodified (the registry key is derived from both); got "+got)
+	}
+	c.floor(rule, n, 1, "returns of newPeer")
+	for _, fn := range p.FuncSeq {
+		for _, acc := range p.fieldAccesses(fn) {
+			if acc.Struct == "peer" && acc.Field == "config" && acc.Write {
+				c.require(isFreshWrite(acc) && p.ownerName(fn) == "newPeer", rule, p.Name(fn), "write of peer.config", p.InstrPos(acc.Instr), "a peer's configuration is set once, by its constructor")
+			}
+			if acc.Struct == "PeerConfig" && acc.Write && !isFreshWrite(acc) {
+				c.fail(rule, p.Name(fn), "write of PeerConfig."+acc.Field, p.InstrPos(acc.Instr), "a stored peer configuration is never modified in place")
+			}
+		}
+	}
 }
